@@ -61,6 +61,7 @@ def run(ctx):
     ctx.rule("C07.crss", "get_crss accepts exactly the six supported (phase, fabric) pairs and raises ValueError for mismatched pairs and invalid ordinals")
     ctx.rule("C07.mobility0", "df == 0 identically when M* = 0")
     ctx.rule("C07.null-rhs", "for the two viscosity-bound regimes the ODE right-hand side is [L·F | 0 | 0]: texture rates vanish while F still follows dF/dt = L·F")
+    ctx.rule("C07.zero-forcing", "the branch of eval_rhs taken for a vanishing strain rate returns [L·F | 0 | 0] (texture unchanged, F still follows dF/dt = L·F)")
     ctx.rule("C07.history", "an update that raises (unsupported regime, solver failure) leaves the stored history untouched")
     ctx.rule("C07.rhs-div", "every division evaluated in eval_rhs has a constant/guarded denominator (zero strain rate)")
     I = Interp(ctx.program, perm_chooser=lambda cs: (3, 0, 1, 2))
@@ -166,6 +167,22 @@ def history(ctx):
 def rhs_divisions(ctx):
     mloc = ctx.program.loc(ctx.program.module("pydrex.minerals"), ctx.program.require_method("pydrex.minerals.Mineral", "update_orientations")) + " (eval_rhs)"
     R = driver.run_update(ctx, N=2)
+    # outcome of the zero-strain-rate guard (if the code has one)
+    if R.rhs_calls:
+        t, y, res = R.rhs_calls[0]
+        F = y[:9].reshape(3, 3)
+        Lm = R.Lfun.fn(R.I, t, R.xfun.fn(R.I, t))
+        ref = (Lm @ F).flatten()
+        zero_guards = [(g, o, gl) for g, o, gl, fn in R.I.guards if fn.endswith("eval_rhs") and o[0] == "return" and isinstance(o[1], np.ndarray)
+                       and g.kind == "cmp" and any(isinstance(a, E) and any(at.kind == "fn:max" or at.kind == "fn:eigvalsh" for at in alg.atoms_of(alg.unfold_all(a), deep=False)) for a in g.args[1:3] if isinstance(a, E))]
+        for g, o, gl in zero_guards[:1]:
+            v = o[1]
+            okF = v.shape == y.shape and all(alg.decide(alg.unfold_all(lift(a)), b)[0] == "equal" for a, b in zip(v[:9], ref))
+            okT = all(alg.unfold_all(lift(c_)).is_zero() for c_ in v[9:])
+            ctx.ob("C07.zero-forcing", "eval_rhs:vanishing strain rate", okF and okT,
+                   f"returned F block {'== L·F' if okF else '!= L·F'}, texture rates {'== 0' if okT else '!= 0'}", gl)
+        if not zero_guards:
+            ctx.observe("eval_rhs has no dedicated branch for a vanishing strain rate; the division-guard rule decides whether the generic path is safe")
     seen = set()
     n = 0
     for den, dloc, func, nz, facts in R.I.divisions:
